@@ -31,7 +31,7 @@ const sdpBody = "v=0\r\no=- 4596489990601351948 2 IN IP4 127.0.0.1\r\ns=-\r\nt=0
 func genC26(t *rapid.T) c26Case {
 	c := c26Case{
 		Mode:   rapid.SampledFrom([]string{"roundtrip", "roundtrip", "mutate", "arbitrary", "other-context", "roles", "roles"}).Draw(t, "mode"),
-		Signal: rapid.SampledFrom([]string{"request-offer", "sdp-offer", "sdp-answer", "ice", "empty"}).Draw(t, "signal"),
+		Signal: rapid.SampledFrom([]string{"request-offer", "sdp-offer", "sdp-answer", "sdp-large", "ice", "empty"}).Draw(t, "signal"),
 		N:      rapid.Uint64().Draw(t, "n"),
 		Text:   rapid.StringN(0, 30, 60).Draw(t, "text"),
 		KeyD:   rapid.IntRange(0, 3).Draw(t, "keyd"),
@@ -71,6 +71,14 @@ func mkSignal(c c26Case) *webrtc.WebRtcSignal {
 		return &webrtc.WebRtcSignal{Body: &webrtc.WebRtcSignal_Sdp{Sdp: &webrtc.WebRtcSdp{TxSeqno: c.N, SdpType: "offer", Sdp: sdpBody}}}
 	case "sdp-answer":
 		return &webrtc.WebRtcSignal{Body: &webrtc.WebRtcSignal_Sdp{Sdp: &webrtc.WebRtcSdp{TxSeqno: c.N, SdpType: "answer", Sdp: sdpBody + "a=x:" + fmt.Sprint(c.N%1000) + "\r\n"}}}
+	case "sdp-large":
+		// an offer carrying many ICE candidates with poorly compressible attributes (several KB up to ~60 KB)
+		body := sdpBody
+		n := 20 + int(c.N%400)
+		for i := 0; i < n; i++ {
+			body += fmt.Sprintf("a=candidate:%x %d udp %d 10.%d.%d.%d %d typ host ufrag %x\r\n", gen.DetBytes(fmt.Sprint("f", i, c.N), 6), 1+i%2, 2130706431-i, i%250, (i*7)%250, (i*13)%250, 1024+i, gen.DetBytes(fmt.Sprint("u", i, c.N), 8))
+		}
+		return &webrtc.WebRtcSignal{Body: &webrtc.WebRtcSignal_Sdp{Sdp: &webrtc.WebRtcSdp{TxSeqno: c.N, SdpType: "offer", Sdp: body}}}
 	case "ice":
 		return &webrtc.WebRtcSignal{Body: &webrtc.WebRtcSignal_Ice{Ice: &webrtc.WebRtcIce{Candidate: fmt.Sprintf(`{"candidate":"candidate:1 1 udp 2130706431 10.0.0.%d 5000 typ host","sdpMid":"0","sdpMLineIndex":0}`, c.N%250)}}}
 	}
